@@ -268,6 +268,35 @@ def main(tier):
     check_error_kinds(run, fx, rs)
     run.assumptions += ["the ixdtf crate implements the RFC 9557 / Temporal grammar and rejects unknown critical "
                         "annotations that the handler returns to it"]
+    # TimeZoneIANAName is a '/'-separated list of components of ANY length
+    rule = "R12.iana-name-components-repeat"
+    run.rule(rule, "the place of the time-zone identifier parser that consumes a `/` separator repeats - it sits in a loop or in "
+                   "a recursive function - so that identifiers with any number of components (America/Argentina/Buenos_Aires) "
+                   "are accepted, as TimeZoneIANAName requires")
+    import json as _json
+    from .. import mirq as M
+    rsx = fx["temporal_rs"]
+    cg = M.CallGraph(fx, ["temporal_rs"])
+    users = []
+    for g in rsx.fns:
+        if g.mir is None or g.file != "src/parsers/timezone.rs":
+            continue
+        body = M.Body(g)
+        for bi, blk in enumerate(body.blocks):
+            if "parsers::timezone::is_slash" in _json.dumps(blk):
+                users.append((g, body, bi))
+    if not users:
+        run.anchor_missing(rule, "is_slash", "no use of the `/` separator test found in src/parsers/timezone.rs")
+    for g, body, bi in users:
+        in_loop = bi in {b for s0 in body.succs(bi) for b in body.reachable(s0)}
+        callees = set()
+        for c in body.calls():
+            callees |= set(cg.resolve(c))
+        recursive = g.path in cg.closure(callees) if callees else False
+        run.check(in_loop or recursive, rule, g.path.replace("temporal_rs::", ""),
+                  "separator consumed %s" % ("in a loop" if in_loop else "by a recursive function"),
+                  "%s consumes a `/` separator once, neither in a loop nor recursively: identifiers with more components than "
+                  "the code spells out are rejected" % g.name, g.loc)
     # the month-day grammar does not bound the day by the month: the constructor must reject, not constrain
     rule = "R1.parser-rejects-open-field-ranges"
     run.rule(rule, "where the ixdtf grammar leaves a field range open (month-day strings: the day is not checked against the "
